@@ -17,10 +17,13 @@ correspondence stream).
 import Nebula.Lemmas.CoalesceGeom
 import Nebula.Lemmas.CoalesceOrder
 import Nebula.Lemmas.CoalesceSeed
+import Nebula.Lemmas.CoalesceMaskInv
+import Nebula.Lemmas.CoalescePad
+import Nebula.Lemmas.CoalescePanic
 
 namespace Nebula.Props.C23
 open Nebula.Coalesce Nebula.Lemmas.Coalesce
-open Nebula.Spec.KernelGSO (mask kernelSeg ppConsistent writeGeometryOk writeSeedOk Flow)
+open Nebula.Spec.KernelGSO (mask trim flowOf pureAck kernelSeg ppConsistent writeGeometryOk writeSeedOk Flow)
 
 /-- `I_lock`: after replaying any packets into the lanes, `lastSlot` (the cached slot pointer of
 `TCPCoalescer`/`UDPCoalescer`) points at a slot that `openSlots` maps its flow key to — the cache is in
@@ -106,6 +109,79 @@ theorem flow_order (tso uso : Bool) (l : List Staged) (hc : Consistent l) :
   ⟨multiPkts (dispatchAll tso uso l), multiFlush_seg (dispatchAll_inv tso uso l hc).1,
     (dispatchAll_inv tso uso l hc).2, dispatchAll_ord tso uso l hc⟩
 
+/-- `flowOf` / `pureAck` do not look at anything `mask` touches: the flow of a packet and whether it is a
+pure ACK are the same before and after masking — so they are the same for an original packet and for the
+segment the kernel rebuilds from the superpacket. -/
+theorem flow_mask_invariant (p : Bytes) : flowOf (mask p) = flowOf p ∧ pureAck (mask p) = pureAck p :=
+  ⟨flowOf_mask p, pureAck_mask p⟩
+
+/-- `flow_order`, stated directly on the delivered segments (the kernel-segmented output): for every flow
+`f`, the delivered segments of `f` that are not pure ACKs are — in order, one for one, up to `mask` — the
+dispatched packets of `f` that are not pure ACKs. -/
+theorem flow_order_delivered (tso uso : Bool) (l : List Staged) (hc : Consistent l) (f : Flow) :
+    (((dispatchAll tso uso l).flush.flatMap kernelSeg).filter (qf f)).map mask =
+      ((l.map (·.pkt)).filter (qf f)).map mask := by
+  rw [filter_qf_of_map_mask_eq f (multiFlush_seg (dispatchAll_inv tso uso l hc).1),
+    dispatchAll_ord tso uso l hc f]
+
+/-- `flow_order_delivered` for `Commit`* ; `Flush`: delivery per flow follows ascending `(epoch, counter)`. -/
+theorem flow_order_delivered_flush (tso uso : Bool) (staged : List Staged) (hc : Consistent staged) (f : Flow) :
+    (((flushBatch tso uso staged).flatMap kernelSeg).filter (qf f)).map mask =
+      (((staged.mergeSort stagedLe).map (·.pkt)).filter (qf f)).map mask := by
+  have hperm := List.mergeSort_perm staged stagedLe
+  exact flow_order_delivered tso uso _ (fun sp hsp => hc sp (hperm.mem_iff.mp hsp)) f
+
+/-- `padding_delivery`: what reaches the tun for a packet whose buffer is longer than its IP-declared
+length (and for every other packet). A packet written alone — a verbatim slot or a chain that never grew —
+goes out byte for byte, trailing bytes included (the kernel's IP input then ignores them). A packet folded
+into a superpacket is delivered as exactly its IP-declared datagram: each delivered segment has the
+length `trim` gives (the bytes after the IP length are not carried), and is the original up to `mask`. -/
+theorem padding_delivery (tso uso : Bool) (l : List Staged) (hc : Consistent l) (tcp : Bool) (s : Slot)
+    (hs : (tcp = true ∧ s ∈ (dispatchAll tso uso l).tcp.slots) ∨ (tcp = false ∧ s ∈ (dispatchAll tso uso l).udp.slots)) :
+    ((s.verbatim = true ∨ s.numSeg = 1) → kernelSeg (slotOut tcp s) = s.ghost ∧ s.ghost.length = 1) ∧
+    ((s.verbatim = false ∧ s.numSeg ≠ 1) →
+      (kernelSeg (slotOut tcp s)).map List.length = s.ghost.map (fun p => (trim p).length) ∧
+      (kernelSeg (slotOut tcp s)).map mask = s.ghost.map mask) := by
+  have h := (dispatchAll_inv tso uso l hc).1
+  have hok : SlotOK tcp s := by
+    rcases hs with ⟨e, hm⟩ | ⟨e, hm⟩ <;> subst e
+    · exact h.tcp.ok s hm
+    · exact h.udp.ok s hm
+  exact ⟨slot_alone hok, fun ⟨hv, h1⟩ => ⟨slot_coalesced_lengths hok hv h1, slot_seg hok⟩⟩
+
+/-- `parse_no_panic`: `parseIPAt` / `parseTail` never slice or index out of range — for ANY bytes and ANY
+claimed `IPHdrLen` (no `Consistent` needed): the checked parser never returns the panic result. -/
+theorem parse_no_panic (tcp : Bool) (pkt : Bytes) (ipHdrLen : Nat) :
+    parseAtC tcp pkt ipHdrLen = .ok (parseAt tcp pkt ipHdrLen) :=
+  parseAtC_ok tcp pkt ipHdrLen
+
+/-- `no_panic`: a whole `Commit`* ; `Flush` round — parsing, `canAppend` (incl. `ipv4CanCoalesceID`,
+`headersMatch`), `appendPayload`, `seed`, every header patch and slice of `flushSlot` — on a coalescer
+that may have been used before (any pool contents) never hits a Go slice-bounds / index panic, and the
+"nil slot pointer" branch of the model is unreachable: the checked model returns exactly what the
+unchecked model returns. Needs `Consistent` only because the lane invariant that keeps `openSlots` /
+`lastSlot` pointing at well-formed coalescing slots is established under it; the parse stage
+(`parse_no_panic`) is unconditional. -/
+theorem no_panic (m : Multi) (hi : Idle m) (staged : List Staged) (hc : Consistent staged) :
+    m.roundC staged = .ok (m.round staged) :=
+  roundC_ok hi staged hc
+
+/-- `no_stale_bytes`: slot objects are recycled through the free list (`take` / `release`) from one `Flush`
+to the next. Starting from a coalescer with nothing staged and ANY pool contents (even objects that were
+never reset), for every batch of its life the writes of that batch's `Flush` are made of that batch's
+packets only: re-segmented they are, up to `mask`, a permutation of the batch (`transparent`), every
+offloaded write has accepted geometry, and per flow the order is the batch's `(epoch, counter)` order. -/
+theorem no_stale_bytes (m : Multi) (hi : Idle m) (batches : List (List Staged)) (hc : ∀ b ∈ batches, Consistent b) :
+    (m.rounds batches).length = batches.length ∧
+    ∀ (k : Nat) (ws : List Wr) (b : List Staged), (m.rounds batches)[k]? = some ws → batches[k]? = some b →
+      RoundOK ws b :=
+  rounds_spec batches m hi hc
+
+/-- `seed` assigns every field of the slot object it took from the pool, and `release` zeroes it. -/
+theorem seed_overwrites_all (blank : Slot) (tcp : Bool) (pkt : Bytes) (info : Parsed) :
+    seedSlotFrom blank tcp pkt info = seedSlotFrom {} tcp pkt info ∧ release blank = {} :=
+  ⟨rfl, rfl⟩
+
 /-- the dispatch order used by `Flush` is the sender's transmission order: ascending `(epoch, counter)`. -/
 theorem dispatch_sorted (staged : List Staged) :
     (staged.mergeSort stagedLe).Pairwise (fun a b => stagedLe a b = true) := by
@@ -140,5 +216,9 @@ example : (((dispatchAll true true exBatch).flush.flatMap kernelSeg).map mask) =
 
 example : qf { isV6 := false, src := [10,0,0,1], dst := [10,0,0,2], proto := 17, sport := 5000, dport := 6000 } udpA = true := by
   decide
+
+-- non-vacuity: an idle coalescer whose pools hold a non-zeroed slot object
+example : Idle { tcp := { pool := [{ numSeg := 7, payIovs := [[1, 2, 3]], rawPkt := [9, 9] }] } } := by
+  constructor <;> rfl
 
 end Nebula.Props.C23
